@@ -1433,6 +1433,17 @@ fn main() {
         .enable_all()
         .build()
         .unwrap();
+    // A session that sits in a slow (synchronous) application handler blocks one worker thread. If that worker was the one
+    // holding the runtime's I/O + time driver and the others are asleep, nothing polls the driver until some task is
+    // scheduled -- the harness's own timers and sockets would stand still with it. A heartbeat from a plain thread keeps
+    // waking a worker, which then parks on the driver again.
+    {
+        let handle = rt.handle().clone();
+        std::thread::spawn(move || loop {
+            std::thread::sleep(Duration::from_millis(10));
+            handle.spawn(async {});
+        });
+    }
     for line in std::io::BufReader::new(scripts).lines() {
         let line = line.unwrap();
         if line.trim().is_empty() {
